@@ -177,3 +177,185 @@ impl TrRef {
 pub fn tp_dd(b: &RawBar) -> DD {
     DD::sum2(b.c, b.h).add_f(b.l).div_f(3.0)
 }
+
+// ---- oscillators (C03 and users) -------------------------------------------------------------------------------
+
+/// A reference value with its condition number; `None` = degenerate (zero reference denominator).
+#[derive(Clone, Copy, Debug)]
+pub struct Cond {
+    pub val: DD,
+    pub c: f64,
+}
+
+#[derive(Clone, Debug)]
+pub struct RsiRef {
+    pub up: EmaRef,
+    pub down: EmaRef,
+    pub prev: f64,
+    pub fresh: bool,
+    pub big: f64,
+}
+impl RsiRef {
+    pub fn new(n: usize) -> RsiRef {
+        RsiRef { up: EmaRef::new(n), down: EmaRef::new(n), prev: 0.0, fresh: true, big: 0.1 }
+    }
+    /// returns None when U + D == 0 (degenerate, C08)
+    pub fn next(&mut self, x: f64) -> Option<Cond> {
+        let (u, d) = if self.fresh {
+            self.fresh = false;
+            (DD::from(0.1), DD::from(0.1))
+        } else if x > self.prev {
+            (DD::sum2(x, -self.prev), DD::ZERO)
+        } else {
+            (DD::ZERO, DD::sum2(self.prev, -x))
+        };
+        self.prev = x;
+        self.big = self.big.max(u.to_f64()).max(d.to_f64());
+        let ue = self.up.next(u);
+        let de = self.down.next(d);
+        let den = ue.add(de);
+        if !(den.hi > 0.0) {
+            return None;
+        }
+        Some(Cond { val: ue.mul_f(100.0).div(den), c: self.big / den.to_f64() })
+    }
+}
+
+/// FastStochastic on explicit windows (highs, lows over the last min(t,n) inputs) and the current close.
+/// Returns (value, c); flat window → (50, 0) exactly as documented.
+pub fn fast_stoch_ref(highs: &[f64], lows: &[f64], close: f64) -> Cond {
+    let hi = wmax(highs);
+    let lo = wmin(lows);
+    if hi == lo {
+        return Cond { val: DD::from(50.0), c: 0.0 };
+    }
+    let den = DD::sum2(hi, -lo);
+    let num = DD::sum2(close, -lo);
+    let big = hi.abs().max(lo.abs()).max(close.abs());
+    Cond { val: num.mul_f(100.0).div(den), c: big / den.to_f64().abs() }
+}
+
+/// RateOfChange over history since reset (hist non-empty)
+pub fn roc_ref(hist: &[f64], n: usize) -> Option<Cond> {
+    let t = hist.len();
+    let x = hist[t - 1];
+    let prev = if t > n { hist[t - 1 - n] } else { hist[0] };
+    if prev == 0.0 {
+        return None;
+    }
+    let val = DD::sum2(x, -prev).mul_f(100.0).div_f(prev);
+    Some(Cond { val, c: x.abs().max(prev.abs()) / prev.abs() })
+}
+
+/// EfficiencyRatio over history since reset; None if the path length is zero (degenerate)
+pub fn er_ref(hist: &[f64], n: usize) -> Option<Cond> {
+    let t = hist.len();
+    if t == 1 {
+        // documented: first output 1 (|0 - x|/|0 - x| for a positive price)
+        if hist[0] == 0.0 {
+            return None;
+        }
+        return Some(Cond { val: DD::ONE, c: 1.0 });
+    }
+    let k = (t - 1).min(n);
+    let first = hist[t - 1 - k];
+    let mut vol = DD::ZERO;
+    let mut big = 0.0f64;
+    for j in (t - k)..t {
+        vol = vol.add(DD::sum2(hist[j], -hist[j - 1]).abs());
+        big = big.max(hist[j].abs()).max(hist[j - 1].abs());
+    }
+    if vol.is_zero() {
+        return None;
+    }
+    let num = DD::sum2(hist[t - 1], -first).abs();
+    Some(Cond { val: num.div(vol), c: big / vol.to_f64() })
+}
+
+/// CCI over the typical prices of the last min(t,n) bars; None if MAD is zero.
+/// `big_since_reset`: largest |typical price| fed since construction/reset — every one of them
+/// entered the running sum behind the SMA term, so it is the magnitude the condition number uses.
+pub fn cci_ref(bars: &[RawBar], n: usize, big_since_reset: f64) -> Option<Cond> {
+    let t = bars.len();
+    let w = &bars[t - t.min(n)..];
+    let tps: Vec<DD> = w.iter().map(tp_dd).collect();
+    let k = tps.len() as f64;
+    let mut s = DD::ZERO;
+    let mut big = 0.0f64;
+    for tp in &tps {
+        s = s.add(*tp);
+        big = big.max(tp.to_f64().abs());
+    }
+    let mean = s.div_f(k);
+    let mut a = DD::ZERO;
+    for tp in &tps {
+        a = a.add(tp.sub(mean).abs());
+    }
+    let mad = a.div_f(k);
+    if mad.is_zero() || !(mad.hi > 0.0) {
+        return None;
+    }
+    let num = tps[tps.len() - 1].sub(mean);
+    Some(Cond { val: num.div(mad.mul_f(0.015)), c: big.max(big_since_reset) / mad.to_f64() })
+}
+
+/// Is the comparison of the typical prices of bars a and b unambiguous under any evaluation order?
+/// `sep` = required relative separation when they differ.
+pub fn tp_pair_unambiguous(a: &RawBar, b: &RawBar, sep: f64) -> bool {
+    if a.h.to_bits() == b.h.to_bits() && a.l.to_bits() == b.l.to_bits() && a.c.to_bits() == b.c.to_bits() {
+        return true;
+    }
+    let ta = tp_dd(a);
+    let tb = tp_dd(b);
+    let d = ta.sub(tb).abs().to_f64();
+    let scale = ta.to_f64().abs().max(tb.to_f64().abs());
+    if d >= sep * scale && d > 0.0 {
+        return true;
+    }
+    // equal or nearly equal exact typical prices from different bars: unambiguous only if every
+    // three-term sum is exact in every order (then all orders give identical f64 sums)
+    fn exact3(b: &RawBar) -> bool {
+        let e = |x: f64, y: f64, z: f64| {
+            let (s, r) = crate::dd::two_sum(x, y);
+            let (_, r2) = crate::dd::two_sum(s, z);
+            r == 0.0 && r2 == 0.0
+        };
+        e(b.c, b.h, b.l) && e(b.c, b.l, b.h) && e(b.h, b.l, b.c)
+    }
+    exact3(a) && exact3(b) && (d == 0.0 || d >= 4.0 * ulp(scale))
+}
+
+#[derive(Clone, Copy, Debug)]
+pub struct MfiOut {
+    pub pmf: DD,
+    pub nmf: DD,
+    pub tainted: bool,
+    pub max_flow_in_window: f64,
+}
+/// MoneyFlowIndex flows over the last min(t-1, n) typical-price moves of `bars` (t = bars.len() >= 2)
+pub fn mfi_ref(bars: &[RawBar], n: usize, sep: f64) -> MfiOut {
+    let t = bars.len();
+    let k = (t - 1).min(n);
+    let mut pmf = DD::ZERO;
+    let mut nmf = DD::ZERO;
+    let mut tainted = false;
+    let mut mx = 0.0f64;
+    for j in (t - k)..t {
+        let a = &bars[j - 1];
+        let b = &bars[j];
+        if !tp_pair_unambiguous(a, b, sep) {
+            tainted = true;
+        }
+        let ta = tp_dd(a);
+        let tb = tp_dd(b);
+        let flow = tb.mul_f(b.v);
+        if ta.lt(tb) {
+            pmf = pmf.add(flow);
+            mx = mx.max(flow.to_f64().abs());
+        } else if tb.lt(ta) {
+            nmf = nmf.add(flow);
+            mx = mx.max(flow.to_f64().abs());
+        }
+    }
+    MfiOut { pmf, nmf, tainted, max_flow_in_window: mx }
+}
